@@ -1944,6 +1944,13 @@ class VarColumns(Elemwise):
     _is_length_preserving = True
 
     @functools.cached_property
+    def _meta(self):
+        # pandas decides the dtype of a row-wise variance from the rows (object
+        # for columns of mixed dtypes, float64 without any row), so evaluate it
+        # on a non-empty meta like the other row-wise reductions do
+        return make_meta(meta_nonempty(self.frame._meta).var(**self._kwargs))
+
+    @functools.cached_property
     def _kwargs(self) -> dict:
         return {"axis": 1, **super()._kwargs}
 
